@@ -1,9 +1,12 @@
 (* Verdict function for the C03 correspondence run: the API calls that were made and the tables of the serialized profile. *)
-From SV Require Import Model.ProfileTables.
+From SV Require Import Model.ProfileTables Model.FrameTables.
 Open Scope N_scope.
 
 Definition othread := ((N * N) * (N * N) * bool * thread_json * list stack_key * list (N * option nat) * list (option nat))%type.
    (* pid string, tid string, isMainThread, tables, stack table, samples (time, stack), marker stacks *)
+
+(* observed per-thread tables: stringArray (content ids), resourceTable.lib / name, funcTable.name / resource, frameTable.func / address *)
+Definition otables := (list N * list nat * list nat * list nat * list (option nat) * list nat * list (option N))%type.
 
 Record c03case := mkCase {
   cp_procs : list (N * N);                                   (* pid, start *)
@@ -13,7 +16,44 @@ Record c03case := mkCase {
   cp_visible : list nat; cp_selected : list nat; cp_counters : list nat;
   ob_threads : list othread;
   ob_visible : list nat; ob_selected : list nat;
-  ob_counters : list (nat * (N * N)) }.                      (* mainThreadIndex, pid string *)
+  ob_counters : list (nat * (N * N));                        (* mainThreadIndex, pid string *)
+  cp_reqs : list (nat * freq);                               (* thread handle, request - in call order; FNative carries the library HANDLE *)
+  ob_libs : list nat;                                        (* library handles in the order of the JSON libs array *)
+  ob_tables : list otables }.                                (* per JSON thread *)
+
+Fixpoint listnat_eqb (a b : list nat) : bool :=
+  match a, b with [], [] => true | x :: a', y :: b' => Nat.eqb x y && listnat_eqb a' b' | _, _ => false end.
+
+Fixpoint listN_eqb (a b : list N) : bool :=
+  match a, b with [], [] => true | x :: a', y :: b' => (x =? y) && listN_eqb a' b' | _, _ => false end.
+Fixpoint liston_eqb (a b : list (option nat)) : bool :=
+  match a, b with
+  | [], [] => true
+  | None :: a', None :: b' => liston_eqb a' b'
+  | Some x :: a', Some y :: b' => Nat.eqb x y && liston_eqb a' b'
+  | _, _ => false end.
+Fixpoint listoN_eqb (a b : list (option N)) : bool :=
+  match a, b with
+  | [], [] => true
+  | None :: a', None :: b' => listoN_eqb a' b'
+  | Some x :: a', Some y :: b' => (x =? y) && listoN_eqb a' b'
+  | _, _ => false end.
+
+(* GlobalLibTable::index_for_used_lib: libraries are numbered in the order of their first use by any thread *)
+Definition used_libs (reqs : list (nat * freq)) : list nat :=
+  fold_left (fun u r => match snd r with FNative lib _ _ _ => snd (intern Nat.eqb u lib) | _ => u end) reqs [].
+Definition translate (used : list nat) (r : freq) : freq :=
+  match r with
+  | FNative lib rel h n => FNative (match index_of Nat.eqb lib used with Some i => i | None => 0%nat end) rel h n
+  | x => x
+  end.
+Definition model_tables (reqs : list (nat * freq)) (h : nat) : otables :=
+  let used := used_libs reqs in
+  let t := run_reqs (map (fun r => translate used (snd r)) (filter (fun r => Nat.eqb (fst r) h) reqs)) in
+  (tt_strings t, tt_res_lib t, tt_res_name t, map fst (tt_funcs t), tt_func_res t, tt_frame_func t, map (fun k => option_map snd (snd k)) (tt_frames t)).
+Definition otables_eqb (a b : otables) : bool :=
+  let '(s1, rl1, rn1, fn1, fr1, ff1, fa1) := a in let '(s2, rl2, rn2, fn2, fr2, ff2, fa2) := b in
+  listN_eqb s1 s2 && listnat_eqb rl1 rl2 && listnat_eqb rn1 rn2 && listnat_eqb fn1 fn2 && liston_eqb fr1 fr2 && listnat_eqb ff1 ff2 && listoN_eqb fa1 fa2.
 
 Definition id_eqb (a b : N * N) : bool := (fst a =? fst b) && (snd a =? snd b).
 Definition ot_pid (o : othread) := let '(p, _, _, _, _, _, _) := o in p.
@@ -26,9 +66,6 @@ Definition ot_mstacks (o : othread) := let '(_, _, _, _, _, _, s) := o in s.
 
 Fixpoint nodup_ids (l : list (N * N)) : bool :=
   match l with [] => true | x :: r => negb (existsb (id_eqb x) r) && nodup_ids r end.
-Fixpoint listnat_eqb (a b : list nat) : bool :=
-  match a, b with [], [] => true | x :: a', y :: b' => Nat.eqb x y && listnat_eqb a' b' | _, _ => false end.
-
 (* the observed thread carrying a given tid string *)
 Definition find_thread (os : list othread) (tid : N * N) : option (nat * othread) :=
   find (fun x => id_eqb (ot_tid (snd x)) tid) (combine (seq 0 (length os)) os).
@@ -93,5 +130,10 @@ Definition verdict (c : c03case) : N :=
     Nat.eqb (length os) (length m_order) &&
     forallb (fun x => match nth_error os (fst x) with Some o => id_eqb (ot_tid o) (tid_of (snd x)) && id_eqb (ot_pid o) (pid_of_thread (snd x)) | None => false end)
             (combine (seq 0 (length m_order)) m_order) in
+  (* L1: the frame / func / resource / string tables and the used-library order are exactly the model's *)
+  let tables_ok :=
+    listnat_eqb (used_libs (cp_reqs c)) (ob_libs c) &&
+    Nat.eqb (length (ob_tables c)) (length m_order) &&
+    forallb (fun x => otables_eqb (model_tables (cp_reqs c) (fst x)) (snd x)) (combine m_order (ob_tables c)) in
   (if (2 <=? N.of_nat (length (cp_threads c))) && (1 <=? N.of_nat (length (cp_samples c))) then 10 else 0) +
-  (if negb (wf && uniq && refs && canon) then 2 else if conform then 0 else 1).
+  (if negb (wf && uniq && refs && canon) then 2 else if conform && tables_ok then 0 else 1).
